@@ -6,8 +6,8 @@
    admissible table the search answers with a legal move whenever the root has one -- on the model, for positions
    satisfying the executable invariant `invr_b`; the tie to the binary is the correspondence run over limits, histories,
    clocks and pre-filled tables. *)
-From Coq Require Import NArith ZArith List Bool Permutation.
-From Rawr Require Import Consts Bits Magic Position MoveGen MakeMove Eval TT Search MakeStages SearchFacts SearchFacts2 Closure MenCount EpRetro SearchBound GenLegal SearchTotal SearchFinal.
+From Coq Require Import NArith ZArith List Bool Permutation String.
+From Rawr Require Import Consts Bits Magic Position MoveGen MakeMove Eval TT Search MakeStages SearchFacts SearchFacts2 Closure MenCount EpRetro SearchBound GenLegal SearchTotal SearchFinal Fen Uci SessionInv.
 Import ListNotations.
 Local Open Scope Z_scope.
 
@@ -68,6 +68,23 @@ Proof. intros mb t. split; [apply TBnd_new|split; [apply TBnd_clear|apply TBnd_r
 Example C03_premises_startpos : invr_b startpos = true.
 Proof. vm_compute. reflexivity. Qed.
 
+(* SESSION LEVEL: in every state the command loop can reach along any script (proofs/SessionInv.v; side condition on the FEN
+   text of position lines only), a `go depth N` / `go nodes N` that the model evaluates prints, as its last line, bestmove with a
+   legal move whenever one exists; and the search itself, run with sufficient fuel from that state (its position, its history,
+   its table -- whatever earlier searches left in it) under any stop predicate, returns and answers with a legal move *)
+Theorem C03_every_go_of_a_session_answers_with_a_legal_move : forall mode lines s s1 args s2 o,
+  SessInv s -> script_dom mode s lines -> Reached mode s lines s1 ->
+  is_search_go args -> Uci.step mode s1 (lit "go"%string :: args) = Cont s2 o ->
+  legal_moves (u_pos s1) <> [] ->
+  exists m, In m (legal_moves (u_pos s1)) /\ last o [] = (lit "bestmove "%string ++ to_uci (u_pos s1) m)%list.
+Proof. exact session_go_answers. Qed.
+
+Theorem C03_search_from_every_session_state_answers : forall mode lines s s1 (stopf : Stats -> bool),
+  SessInv s -> script_dom mode s lines -> Reached mode s lines s1 -> legal_moves (u_pos s1) <> [] ->
+  exists r, (forall fuel, (ROOT_FUEL <= fuel)%nat -> root stopf fuel (u_pos s1) (u_hist s1) (u_tt s1) = Some r)
+            /\ exists m, rr_best r = Some m /\ In m (legal_moves (u_pos s1)).
+Proof. exact session_search_would_answer. Qed.
+
 Print Assumptions C03_root_node_best_legal.
 Print Assumptions C03_root_node_answers_legal.
 Print Assumptions C03_answer_is_last_pv.
@@ -77,3 +94,5 @@ Print Assumptions C03_tables_the_engine_makes_satisfy_the_invariant.
 Print Assumptions C03_executable_invariant_sound.
 Print Assumptions C03_search_always_answers_with_a_legal_move.
 Print Assumptions C03_search_terminates.
+Print Assumptions C03_every_go_of_a_session_answers_with_a_legal_move.
+Print Assumptions C03_search_from_every_session_state_answers.
